@@ -335,3 +335,202 @@ def check_panics(prop, tier, seed):
     assumptions = ["memory / stack exhaustion is out of scope (workers run under a 6 GB limit; sources < 6000 bytes; repetition counts are bounded)",
                    "the harness is built in release mode: debug-only overflow checks (e.g. negating i64::MIN) do not panic there"]
     return verdict(prop, tier, seed, "exploration", coverage, mine, assumptions, t0, replay_writer)
+
+
+# ---------------------------------------------------------------------------------------------
+# law engines (C24 C25 C28): expressions evaluated by the harness' `eval` job, predicates in FnLaws.tla
+
+def lstr(s):
+    return {"t": "bytes", "s": s, "u": [ord(c) for c in s]}
+
+
+def lint(n):
+    x = n % 2**64
+    return {"t": "int", "w": [(x >> 48) & 0xffff, (x >> 32) & 0xffff, (x >> 16) & 0xffff, x & 0xffff], "n": n if abs(n) <= 2**30 else "big"}
+
+
+def lobj(d):
+    ks = sorted(d.keys(), key=lambda k: k.encode("utf-8"))
+    return {"t": "obj", "m": {k: d[k] for k in ks}, "ks": [{"s": k, "u": [ord(c) for c in k]} for k in ks]}
+
+
+def larr(xs):
+    return {"t": "arr", "e": list(xs)}
+
+
+def plain(v):
+    """law encoding -> transport encoding for the event"""
+    t = v["t"]
+    if t == "bytes":
+        return {"t": "bytes", "s": v["s"]}
+    if t == "int":
+        return {"t": "int", "w": v["w"]} if v.get("n") == "big" else {"t": "int", "n": v["n"]}
+    if t == "arr":
+        return {"t": "arr", "e": [plain(x) for x in v["e"]]}
+    if t == "obj":
+        return {"t": "obj", "m": {k: plain(x) for k, x in v["m"].items()}}
+    return v
+
+
+def strings_upto(alphabet, n):
+    out = [""]
+    for k in range(1, n + 1):
+        out += ["".join(chr(c) for c in t) for t in itertools.product(alphabet, repeat=k)]
+    return out
+
+
+def law_cases(prop, tier, rnd, U):
+    A = U["STR_ALPHABET"]
+    KV = U["KV_ALPHABET"]
+    cases = []
+
+    def add(name, fn, exprs, inp, extra_event=None):
+        ev = {k: plain(v) for k, v in inp.items() if isinstance(v, dict) and "t" in v}
+        for k, v in inp.items():
+            if isinstance(v, bool):
+                ev[k] = {"t": "bool", "v": v}
+            elif isinstance(v, int):
+                ev[k] = {"t": "int", "n": v}
+        cases.append({"worker": "eval", "f": fn, "args": [], "ret": [], "src": f"{name}:{fn}", "law": {"name": name, "fn": fn}, "inp": inp,
+                      "event": {"t": "obj", "m": ev}, "exprs": exprs})
+
+    if prop == "C28":
+        S3 = strings_upto(A, 2 if tier == "quick" else 3)
+        if tier == "quick":
+            S3 = S3 + ["".join(chr(rnd.choice(A)) for _ in range(rnd.randint(3, 6))) for _ in range(600)]
+        for fn in ["upcase", "downcase", "camelcase", "snakecase", "kebabcase", "pascalcase", "screamingsnakecase", "strip_whitespace"]:
+            for s in S3:
+                add("idempotent", fn, {"once": f"{fn}!(.s)", "twice": f"{fn}!({fn}!(.s))"}, {"s": lstr(s)})
+        for s in S3:
+            add("strip_whitespace", "strip_whitespace", {"out": "strip_whitespace!(.s)"}, {"s": lstr(s)})
+            add("strlen", "strlen", {"out": "strlen!(.s)"}, {"s": lstr(s)})
+        subs = [s for s in S3 if len(s) <= 2]
+        for s in (S3 if tier != "quick" else rnd.sample(S3, 500)):
+            for d in rnd.sample(subs, 12):
+                add("substring", "starts_with/ends_with/contains", {"starts": "starts_with!(.s, .d)", "ends": "ends_with!(.s, .d)", "has": "contains!(.s, .d)"},
+                    {"s": lstr(s), "d": lstr(d)})
+            for dc in U["DELIMS"]:
+                add("split_join", "split/join", {"parts": "split!(.s, .d)", "joined": "join!(split!(.s, .d), .d)"}, {"s": lstr(s), "d": lstr(chr(dc))})
+            for n in (0, 1, 2, 5):
+                for suffix in (False, True):
+                    add("truncate", "truncate", {"out": "truncate!(.s, .n, suffix: \"...\")" if suffix else "truncate!(.s, .n)"},
+                        {"s": lstr(s), "n": n, "suffix": suffix})
+            for a in (-7, -2, -1, 0, 1, 2):
+                for b in (-1, 0, 1, 2, 3, 9):
+                    if rnd.random() < (0.25 if tier == "quick" else 1.0):
+                        add("slice_str", "slice", {"out": "slice!(.s, .a, .b)"}, {"s": lstr(s), "a": a, "b": b})
+        elems = [lint(1), lint(2), lstr("a"), lstr(""), {"t": "null"}, larr([]), lobj({}), lstr("b"), lint(1)]
+        arrays = [larr(t) for k in range(0, 4) for t in itertools.product(elems[:7], repeat=k)]
+        if tier == "quick":
+            arrays = rnd.sample(arrays, 400)
+        for a in arrays:
+            add("unique", "unique", {"out": "unique!(.a)"}, {"a": a})
+            add("compact_arr", "compact", {"out": "compact!(.a)"}, {"a": a})
+        keys = ["a", "b", "é", "a b", ""]
+        vals = [lint(1), lstr("x"), {"t": "null"}, lobj({"k": lint(1)}), larr([lint(1)])]
+        objs = []
+        for k in range(0, 4):
+            for ks in itertools.combinations(keys, k):
+                objs.append(lobj({kk: rnd.choice(vals) for kk in ks}))
+        for o in objs:
+            add("keys_values_length", "keys/values/length", {"keys": "keys!(.o)", "vals": "values!(.o)", "len": "length!(.o)"}, {"o": o})
+            for o2 in rnd.sample(objs, 6):
+                add("merge", "merge", {"out": "merge!(.o, .o2)"}, {"o": o, "o2": o2})
+    elif prop == "C24":
+        K = [s for s in strings_upto(KV, 2 if tier == "quick" else 3) if s]
+        if tier == "quick":
+            K = K + ["".join(chr(rnd.choice(KV)) for _ in range(3)) for _ in range(300)]
+        good_keys = [k for k in K]
+        for v in K:
+            for key in rnd.sample(good_keys, 3):
+                o = lobj({key: lstr(v)})
+                add("kv_roundtrip", "encode_key_value/parse_key_value", {"enc": "encode_key_value!(.o)", "dec": "parse_key_value!(encode_key_value!(.o))"}, {"o": o})
+                add("kv_roundtrip", "encode_key_value/parse_key_value(:,)", {"enc": "encode_key_value!(.o, key_value_delimiter: \":\", field_delimiter: \",\")",
+                     "dec": "parse_key_value!(encode_key_value!(.o, key_value_delimiter: \":\", field_delimiter: \",\"), key_value_delimiter: \":\", field_delimiter: \",\")"}, {"o": o})
+                add("kv_roundtrip", "encode_logfmt/parse_logfmt", {"enc": "encode_logfmt!(.o)", "dec": "parse_logfmt!(encode_logfmt!(.o))"}, {"o": o})
+        for _ in range(800 if tier == "quick" else 8000):
+            o = lobj({rnd.choice(good_keys): lstr(rnd.choice(K)) for _ in range(2)})
+            add("kv_roundtrip", "encode_key_value/parse_key_value", {"enc": "encode_key_value!(.o)", "dec": "parse_key_value!(encode_key_value!(.o))"}, {"o": o})
+        for _ in range(1500 if tier == "quick" else 15000):
+            a = larr([lstr(rnd.choice(K + [""])) for _ in range(rnd.randint(1, 3))])
+            add("csv_roundtrip", "encode_csv/parse_csv", {"enc": "encode_csv!(.a)", "dec": "parse_csv!(encode_csv!(.a))"}, {"a": a})
+    elif prop == "C25":
+        edge = [0, 1, -1, 2, 35, 36, 255, -255, 2**31, 2**53 + 1, 2**63 - 1, -2**63, -2**63 + 1, 2**62, 10**18]
+        ints = edge + [rnd.getrandbits(64) - 2**63 for _ in range(60 if tier == "quick" else 2000)]
+        for b in U["BASES"] + ([] if tier == "quick" else list(range(2, 37))):
+            for n in ints:
+                add("format_int", f"format_int/parse_int", {"fwd": f"format_int!(.x, {b})", "back": f"parse_int!(format_int!(.x, {b}), {b})"}, {"x": lint(n), "base": b})
+        for ip in ["0.0.0.0", "1.2.3.4", "255.255.255.255", "10.0.0.1", "127.0.0.1", "192.168.255.0"]:
+            add("inverse", "ip_aton/ip_ntoa", {"fwd": "ip_aton!(.x)", "back": "ip_ntoa!(ip_aton!(.x))"}, {"x": lstr(ip)})
+            add("inverse", "ip_pton/ip_ntop", {"fwd": "ip_pton!(.x)", "back": "ip_ntop!(ip_pton!(.x))"}, {"x": lstr(ip)})
+            add("inverse", "ip_to_ipv6/ipv6_to_ipv4", {"fwd": "ip_to_ipv6!(.x)", "back": "ipv6_to_ipv4!(ip_to_ipv6!(.x))"}, {"x": lstr(ip)})
+        for ip in ["::", "::1", "2001:db8::1", "ffff:ffff:ffff:ffff:ffff:ffff:ffff:ffff", "fe80::1:2:3:4", "1:2:3:4:5:6:7:8"]:
+            add("inverse", "ip_pton/ip_ntop", {"fwd": "ip_pton!(.x)", "back": "ip_ntop!(ip_pton!(.x))"}, {"x": lstr(ip)})
+        for n in [0, 1, 4294967295, 16909060, 2130706433] + [rnd.getrandbits(32) for _ in range(40)]:
+            add("inverse", "ip_ntoa/ip_aton", {"fwd": "ip_ntoa!(.x)", "back": "ip_aton!(ip_ntoa!(.x))"}, {"x": lint(n)})
+        keys = ["a", "b", "c d", "é"]
+        leaves = [lint(1), lstr("x"), {"t": "null"}, {"t": "bool", "v": True}]
+        def nested(depth):
+            if depth == 0 or rnd.random() < 0.3:
+                return rnd.choice(leaves)
+            return lobj({k: nested(depth - 1) for k in rnd.sample(keys, rnd.randint(1, 3))})
+        for _ in range(400 if tier == "quick" else 5000):
+            o = lobj({k: nested(2) for k in rnd.sample(keys, rnd.randint(1, 3))})
+            add("inverse_obj", "flatten/unflatten", {"fwd": "flatten!(.x)", "back": "unflatten!(flatten!(.x))"}, {"x": o})
+            add("inverse_obj", "to_entries/from_entries", {"fwd": "to_entries!(.x)", "back": "from_entries!(to_entries!(.x))"}, {"x": o})
+        stamps = [t.replace("Z", ".000000000Z") for t in ["1970-01-01T00:00:00Z", "2021-02-03T04:05:06Z", "1969-12-31T23:59:59Z", "2038-01-19T03:14:08Z",
+                                                          "2262-04-11T23:47:16Z", "1677-09-21T00:12:44Z"]]
+        for ts in stamps:
+            for unit in ["seconds", "milliseconds", "nanoseconds"]:
+                add("inverse", f"to_unix_timestamp/from_unix_timestamp({unit})",
+                    {"fwd": f"to_unix_timestamp!(.x, unit: \"{unit}\")", "back": f"from_unix_timestamp!(to_unix_timestamp!(.x, unit: \"{unit}\"), unit: \"{unit}\")"},
+                    {"x": {"t": "ts", "s": ts}})
+            for fmt in ["%+", "%Y-%m-%dT%H:%M:%S%.f%:z", "%s", "%Y-%m-%d %H:%M:%S %z"]:
+                add("inverse", f"format_timestamp/parse_timestamp({fmt})",
+                    {"fwd": f"format_timestamp!(.x, \"{fmt}\")", "back": f"parse_timestamp!(format_timestamp!(.x, \"{fmt}\"), \"{fmt}\")"},
+                    {"x": {"t": "ts", "s": ts}})
+    return cases
+
+
+def check_laws(prop, tier, seed):
+    t0 = time.time()
+    wd = workdir(f"{prop}_{tier}")
+    build_harness()
+    U, gst, gtr = universes("GenLaws.tla", wd, ["STR_ALPHABET", "KV_ALPHABET", "DELIMS", "BASES"])
+    rnd = random.Random(seed)
+    cases = law_cases(prop, tier, rnd, U)
+    rnd.shuffle(cases)
+    log(f"[{prop}] {len(cases)} law instances ({time.time()-t0:.0f}s)")
+    cpath = os.path.join(wd, "cases.ndjson")
+    with open(cpath, "w") as f:
+        for c in cases:
+            f.write(json.dumps(c) + "\n")
+    run([VH, "calls", "--cases", cpath, "--out", os.path.join(wd, "tr"), "--shards", str(NCPU), "--deadline-ms", "10000"], cwd=wd, timeout=7200)
+    traces = [os.path.join(wd, f"tr.{i}.ndjson") for i in range(NCPU)]
+    agg = aggregate(validate(traces, wd, spec="FnLaws.tla", cfg=TRACE_CFG))
+    cnt = agg["cnt"]
+    write_json(os.path.join(wd, "findings.json"), {"viols": agg["viols"][:500]})
+
+    def replay_writer(v):
+        with open(v["_file"]) as f:
+            line = f.readlines()[v["line"] - 1]
+        return {"engine": "C/laws", "record": json.loads(line)}
+
+    by_law = {}
+    for c in cases:
+        by_law[c["law"]["name"] + ":" + c["law"]["fn"]] = by_law.get(c["law"]["name"] + ":" + c["law"]["fn"], 0) + 1
+    coverage = {
+        "evaluations": cnt.get("laws", 0), "distinct_nontrivial": cnt.get(prop, 0),
+        "rule": "law instances over the alphabets of GenLaws.tla (code points incl. multi-byte, Unicode whitespace, delimiters, quotes, backslash, "
+                "newline): all strings up to length 2 (thorough 3) plus seeded longer ones, small arrays/objects with duplicates/empties, edge and "
+                "random i64 values x bases, addresses, nested objects, instants. every instance is one evaluation of the law's expressions by the "
+                "real functions; all count as non-trivial",
+        "samples": [{"law": c["law"], "inp": c["inp"], "exprs": c["exprs"]} for c in cases[:3]],
+        "states": gst + agg["states"], "transitions": gtr + agg["transitions"], "traces_validated_against_impl": cnt.get("laws", 0),
+        "instances_per_law": by_law,
+        "witnesses_for_other_properties": sorted({sig_of(v) for v in agg["viols"] if v["prop"] != prop}),
+    }
+    assumptions = ["code points of strings are computed by the harness (Rust chars()) and are the reference representation for the TLA+ predicates",
+                   "C25 format_int is checked against an independent long-division model (FnLaws!FormatRadix); timestamps only relationally"]
+    mine = [v for v in agg["viols"] if v["prop"] == prop]
+    return verdict(prop, tier, seed, "exploration", coverage, mine, assumptions, t0, replay_writer)
